@@ -673,6 +673,17 @@ class StmtMixin:
                 inner = g0(s, k) if g0 else self.wrap_elem(z3.Select(self.l_arr(lst, s), k), lst.t.args[0], s)
                 return TupleV([Sc(k, INT), inner])
             return 'list', lst, getter, src
+        if isinstance(itv, Sc) and itv.t.kind == 'bytes':
+            # iterating bytes yields its ints
+            from .types import blen as _blen, bat as _bat
+            t = T('list', [INT])
+            arr = fresh('bytes_it', z3.ArraySort(z3.IntSort(), z3.IntSort()))
+            i = z3.Int('i!bi')
+            st.assume(z3.ForAll([i], z3.And(z3.Select(arr, i) == _bat(itv.term, i)), patterns=[z3.Select(arr, i)]))
+            st.assume(z3.ForAll([i], z3.Implies(z3.And(0 <= i, i < _blen(itv.term)), z3.And(0 <= _bat(itv.term, i), _bat(itv.term, i) < 256)),
+                                patterns=[_bat(itv.term, i)]))
+            st.assume(_blen(itv.term) >= 0)
+            return 'list', self.new_cont(t, st, t.mk(_blen(itv.term), arr)), None, None
         if isinstance(itv, Cont):
             if itv.t.kind == 'list':
                 # iterating a live list: snapshot (mutation during iteration is not modelled for lists)
